@@ -872,16 +872,21 @@ impl Formula {
                 let mut variables = vec![];
 
                 let term_variables = term.variables();
-                let formula_variables = formula.free_variables();
+
+                // Names a renamed binder must avoid: the variables of the term, the free
+                // variables of the body, the substituted variable itself, the other binders
+                // of this block, and the fresh names already chosen for this block.
+                let mut taken_variables = formula.free_variables();
+                taken_variables.extend(term_variables.iter().cloned());
+                taken_variables.extend(quantification.variables.iter().cloned());
+                taken_variables.insert(var.clone());
 
                 for variable in quantification.variables {
                     if term_variables.contains(&variable) {
                         let fresh_variable = Variable::sequence(&variable)
-                            .find(|candidate| {
-                                !term_variables.contains(candidate)
-                                    && !formula_variables.contains(candidate)
-                            })
+                            .find(|candidate| !taken_variables.contains(candidate))
                             .unwrap();
+                        taken_variables.insert(fresh_variable.clone());
 
                         formula = formula.substitute(variable, fresh_variable.clone().into());
                         variables.push(fresh_variable);
